@@ -471,6 +471,7 @@ func runInterleaved(cc *ConcCase, estSteps uint64, pristine string, names map[st
 	results := make([]jobResult, n)
 	simhook.ResetKeys()
 	simhook.ResetRun()
+	simhook.Hot = 0
 	prev := simhook.Cur
 	simhook.Cur = s
 	defer func() { simhook.Cur = prev }()
@@ -525,7 +526,7 @@ func (propC09) Runs(tier string) int {
 	if tier == "thorough" {
 		return 500000
 	}
-	return 12000
+	return 8000
 }
 
 // genJob draws one build+render job. orderSafe jobs avoid the known map-order-dependent
